@@ -83,6 +83,8 @@ def depth_feasible(facts, d):
     for key, val in facts:
         if 'depth_left' not in key:
             continue
+        if key.startswith(('type(', 'isinstance(')) or ' == type(' in key:
+            continue        # what kind of number the remaining depth is, not how much is left
         expr = re.sub(r'[\w\.\[\]]*depth_left(?:-(\d+))?', lambda m_: '(D-%s)' % (m_.group(1) or '0'), key)
         if not re.fullmatch(r"[\sD\d\(\)\-\+<>=!]+", expr):
             return None
@@ -103,6 +105,8 @@ def _is_branch_test(par, node):
         if isinstance(p, (ast.BoolOp, ast.UnaryOp)) and (not isinstance(p, ast.UnaryOp) or isinstance(p.op, ast.Not)):
             cur = p
             continue
+        if isinstance(p, ast.Return):
+            return True         # the value a predicate helper returns: a branch test of its caller
         return isinstance(p, (ast.If, ast.While, ast.IfExp)) and p.test is cur
 
 
@@ -124,11 +128,41 @@ def run(repo, rep):
             judged.add(S.printer_for(repo, base_).key)
         except AnalysisError:
             pass
-    for f, node in attr_reads(repo, ATTR):
+    # the printers whose paths are judged, and the private module functions they call (interpreted with them)
+    by_name = {g_.name: g_ for g_ in m.funcs.values() if g_.cls is None and g_.parent is None}
+    todo_ = [g_ for g_ in m.funcs.values() if g_.key in judged]
+    while todo_:
+        g_ = todo_.pop()
+        for c_ in ast.walk(g_.node):
+            if isinstance(c_, ast.Call) and isinstance(c_.func, ast.Name) and c_.func.id.startswith('_') and c_.func.id in by_name \
+                    and by_name[c_.func.id].key not in judged:
+                judged.add(by_name[c_.func.id].key)
+                todo_.append(by_name[c_.func.id])
+    reads = list(attr_reads(repo, ATTR))
+    seen_alias = set()
+    for f, node in reads:
         par = enclosing_map(f.node)
         p = par.get(id(node))
         use = None
-        if isinstance(p, ast.Compare) and len(p.ops) == 1:
+        if isinstance(p, ast.Assign) and len(p.targets) == 1 and isinstance(p.targets[0], ast.Name) and p.value is node and f.cls is not ci:
+            # a local name for the setting: every use of that name is a use of the setting
+            use = 'local alias'
+            al = p.targets[0].id
+            if (f.key, al) not in seen_alias:
+                seen_alias.add((f.key, al))
+                for x in ast.walk(f.node):
+                    if isinstance(x, ast.Name) and x.id == al and isinstance(x.ctx, ast.Load):
+                        reads.append((f, x))
+        elif isinstance(p, ast.Call) and call_name(p) in ('type', 'isinstance') and p.args and p.args[0] is node:
+            use = 'type test'
+        elif isinstance(p, ast.BinOp) and isinstance(p.op, ast.Sub) and p.left is node and src(p.right) == '1' and f.key in judged \
+                and isinstance(par.get(id(p)), ast.Compare) and len(par[id(p)].ops) == 1 and par[id(p)].left is p \
+                and src(par[id(p)].comparators[0]) == '0' and _is_branch_test(par, par[id(p)]):
+            # "what is left after one more level" compared with 0 in a branch test of a judged printer (or its helper)
+            use = 'decrement compared with 0 in a branch test'
+        if use is not None:
+            pass
+        elif isinstance(p, ast.Compare) and len(p.ops) == 1:
             other = p.comparators[0] if p.left is node else p.left
             if src(other) == '0' and type(p.ops[0]) in (ast.Eq, ast.LtE, ast.Gt, ast.NotEq, ast.GtE, ast.Lt):
                 use = 'compare with 0'
